@@ -625,6 +625,109 @@ def backpressure_run(run, rng, mode, idx):
             pc.safe_disconnect(conn)
 
 
+def leave_or_bulk_run(run, rng, mode, idx, variant):
+    """Two free-running scenarios around the flushing disconnect:
+    'bulk'  - more than one write batch (300 packets) is still queued when
+              disconnect() is called (the caller holds the write lock while
+              it queues, so the networking thread cannot drain meanwhile);
+    'leave' - an outgoing listener calls disconnect() at the moment a chosen
+              packet has been written (by whichever thread writes it), while
+              other threads keep handing in packets."""
+    from minecraft.networking import connection as C
+    from minecraft.networking.packets import serverbound
+    state = {'threshold': 16}
+    server = mcserver.Server(server_handler(mode, state))
+    log = pc.EventLog()
+    rec = pc.Recorder(log)
+    conn = None
+    if variant == 'bulk':
+        n = (301, 450, 700)[idx % 3]
+        threads = [[('q', 'bk%d.%d' % (idx, i)) for i in range(n)]]
+        final = (0, False)
+    else:
+        threads = make_threads(rng, rng.randrange(1, 4), rng.randrange(3, 9),
+                               'lv%d' % idx)
+        threads = [[(k if k != 'x' else 'q', m) for k, m in ops]
+                   for ops in threads]
+        final = (None, False)
+        leave_on = rng.choice([m for ops in threads for _k, m in ops])
+    w = {'mode': mode, 'scenario': variant, 'idx': idx,
+         'ops': [len(t) for t in threads]}
+    try:
+        K = pc.monitored_connection_class()
+        conn = K('127.0.0.1', server.port, username='vfuser',
+                 allowed_versions={PV}, handle_exception=rec.handle_exception,
+                 handle_exit=rec.handle_exit)
+        conn.vf_log = log
+        conn.vf_rng = rng
+        lock = baton.LockProxy(baton.NullScheduler())
+        conn._write_lock = lock
+        left = []
+        if variant == 'leave':
+            w['leaves_when_written'] = leave_on
+
+            def leave(packet):
+                if packet.message == leave_on and not left:
+                    left.append(1)
+                    log.emit('api.call', op='disconnect')
+                    try:
+                        conn.disconnect()
+                        log.emit('api.ret', op='disconnect')
+                    except Exception as e:
+                        log.emit('api.raise', op='disconnect', exc=repr(e))
+            conn.register_packet_listener(leave, serverbound.play.ChatPacket,
+                                          outgoing=True)
+        conn.connect()
+        if not pc.wait_for(lambda: isinstance(conn.reactor, C.PlayingReactor)
+                           and state.get('in_play'), 10.0):
+            return 'never reached play state'
+
+        def user(i):
+            if variant == 'bulk':
+                with lock:
+                    user_ops(conn, log, baton.LockProxy(baton.NullScheduler()),
+                             threads[i], final, i)
+            else:
+                user_ops(conn, log, lock, threads[i], final, i)
+        ts = [threading.Thread(target=user, args=(i,), name='u%d' % i,
+                               daemon=True) for i in range(len(threads))]
+        for t in ts:
+            t.start()
+        for t in ts:
+            t.join(30.0)
+        if any(t.is_alive() for t in ts):
+            return 'watchdog: writers alive ' + pc.dump_threads()[-900:]
+        if variant == 'leave' and not left:
+            pc.wait_for(lambda: left, 5.0)
+        if not pc.wait_idle(conn, 20.0):
+            return 'watchdog: threads alive ' + pc.dump_threads()[-900:]
+        server.join(15.0)
+        if [e for e in server.errors if e[1] in ('script', 'timeout')]:
+            return 'server: %r' % (server.errors[:1],)
+        if variant == 'leave' and not left:
+            return 'the leaving packet was never written'
+        if lock_leaks(run, log, w, variant):
+            return None
+        by_net = any(kind == 'api.call' and pl.get('op') == 'disconnect'
+                     and role.startswith('net#')
+                     for _s, role, kind, pl in log.events)
+        # (a disconnect() issued by a user thread pulls the stream away from
+        # under the networking thread, which then reports a transport error:
+        # existing, tolerated behaviour - judged only when the networking
+        # thread itself left)
+        if rec.exceptions and by_net:
+            run.violation('api/%s-reports-error' % variant, 'a scenario '
+                          'without faults ended with an error report',
+                          dict(w, exc=repr(rec.exceptions[:1])))
+        judge(run, log, state, threads, final, server, w, variant)
+        run.count(variant + '.runs')
+        return None
+    finally:
+        server.stop()
+        if conn is not None:
+            pc.safe_disconnect(conn)
+
+
 def make_threads(rng, n_threads, n_ops, tag):
     threads = []
     for t in range(n_threads):
@@ -723,6 +826,22 @@ def run(run):
         run.case(('backpressure', i, mode))
         if err:
             run.inconclusive_because('backpressure %d: %s' % (i, err))
+    # ---- flushing disconnect: bulk queue / leaving from a listener ---------
+    for i in range(120 if thorough else 12):
+        if not run.mine(i):
+            continue
+        variant = ('bulk', 'leave', 'leave')[i % 3]
+        mode = rng.choice(('plain', 'compressed', 'encrypted'))
+        err = None
+        for attempt in range(2):
+            err = leave_or_bulk_run(run, rng, mode, i, variant)
+            if err is None:
+                break
+        run.case((variant, i, mode))
+        if err:
+            run.inconclusive_because('%s %d: %s' % (variant, i, err))
+    run.require('bulk.runs', 1)
+    run.require('leave.runs', 1)
     run.require('backpressure.runs', 2)
     run.require('backpressure.blocked_sends', 1)
     run.require('baton.schedules', 20)
